@@ -50,6 +50,8 @@ CHECKS.update({
              note=PPNOTE, technique=PPTECH, design='4/C06'),
  'C07': dict(category='model_checking', text='One inductive step instead of call histories: for an arbitrary prior state of the three parser thread-locals (stack depths 0..3, top selector any of 9, memo empty/non-empty, all symbolic) the real init() MIR re-establishes the initial state and touches exactly these three; each of the five public parser entries, run from every such state with the grammar function stubbed, calls it on the initial state with its own input and returns its result; the static/thread_local items of all crates are enumerated from the sources (none outside the parser crate) and #[recursive_parser] functions counted against nom_recursive\'s 128 limit.',
              note=WNOTE + ' LocalKey::with / RefCell / Vec::clear / PackratStorage::clear modelled as single-thread cells.', technique='MIR symbolic execution of init() and the entry points over a symbolic thread-local pre-state (z3 chooses depths/contents); source scan for global state', design='4/C07'),
+ 'C08': dict(category='model_checking', text='Totality of the preprocessor, the wrappers and the grammar\'s panic sites: every MIR assert / unwrap / expect / slice / index / arithmetic site reached while the real preprocess_str / preprocess / wrappers run on the program families of C03-C06, C09-C11, C18 and on a totality family (odd `include-macro expansions, multi-byte characters at the end of every piece kind) is a panic obligation discharged by z3 under the path condition (define table, flags, file existence symbolic); missing / non-UTF-8 files give File{path tried} / ReadUtf8(path), wrapped once per include level; concat(..).unwrap() / ret.unwrap() sites of every production body (Engine G). A feasible panic is replayed natively (panic message or process abort). Whole-parse panic-freedom on token soup and Display/Debug are outside.',
+             note=PPNOTE + ' ' + GNOTE, technique=PPTECH + '; panic obligations = MIR asserts / unwrap / slice models under the path condition', design='4/C08'),
  'C12': dict(category='model_checking', text='V2 scope pairing for every production body: on every exit path (normal, each `?`, early return) the directive stack and the keyword-version stack are as on entry, except version_specifier/keywords_directive (+1 version on success) and endkeywords_directive (-1); plus the trivia alphabet: the character classes of the primitives white_space is built from cover blank, tab, form feed, newline. A leak is confirmed on the real parser by scope depths after parsing probe texts.',
              note=GNOTE, technique=GTECH, design='4/C12'),
  'C13': dict(category='model_checking', text='is_keyword / begin_keywords / end_keywords / current_version from MIR with the version stack (depth 0..3, top any of 9 selectors) and the word (index into the universe of all reserved words + probes) symbolic: is_keyword(w) <=> w in the reference set of the selector in force (IEEE 1800-2017 22.14, oracle/keywords/*.txt; 1800-2017 when the stack is empty); every specifier pushes its selector, unknown ones push nothing; the identifier lexers (Engine G, is_keyword symbolic) have no successful path under is_keyword and none that skips the lookup.',
@@ -66,7 +68,6 @@ CHECKS.update({
 
 NA = {
  'C02': 'the statement quantifies over all sentences of a reference Annex A grammar and over the node kinds of the resulting trees: that needs whole-parse symbolic execution of the 1300-production nom grammar and an independent Annex A generator as oracle, out of reach of the encoders here; the lexical slice of it (keyword boundary, identifier lexers) is decided under C13 and the bounded lexical engine, ordering of non-terminal alternatives is not (see DESIGN.md 4/C02)',
- 'C08': 'check not built yet in this session; panic obligations met by the other harnesses are reported under those properties',
  'C17': 'deciding it means comparing whole parses under two memo configurations; no modular contract captures "independent of eviction" (memoised functions also depend on the keyword-version stack) and whole-parse symbolic execution is out of reach; comparing concrete parses under two capacities would be testing, not solver-based checking (DESIGN.md 4/C17)',
  'C19': 'a consequence of the storage class (thread_local!): there is no interleaving semantics in this code to encode and Kani does not model threads; the enumeration of global state is reported under C07 (DESIGN.md 4/C19)',
 }
